@@ -169,6 +169,14 @@ class Prov:
             if step.startswith("unpack:") and len(p) >= 2 and p[-1] == "elem" and p[-2].endswith(":zip") and p[-2].startswith("arg") \
                     and p[-2][3:-4].isdigit() and p[-2][3:-4] != step[7:]:
                 continue  # the i-th component of an element of zip(a0, a1, ..) comes from a_i only
+            if (step.startswith("unpack:") or step.startswith("item:")) and step.split(":", 1)[1].isdigit():
+                # (a, b)[0] / x, y = (a, b): the element put into a display at position j and taken out at position i
+                if p[-1].startswith("in:") and p[-1][3:].isdigit():
+                    if p[-1][3:] == step.split(":", 1)[1]:
+                        out.add(p[:-1])
+                    continue
+                if p in (("fresh:tuple",), ("fresh:list",)):
+                    continue        # the display object itself is not one of its elements
             rec = self._record_step(p, step)
             if rec is not None:
                 if rec != ():
@@ -297,8 +305,11 @@ class Prov:
             return out
         if isinstance(e, (ast.List, ast.Tuple, ast.Set)):
             out = {(f"fresh:{type(e).__name__.lower()}",)}
+            positional = not isinstance(e, ast.Set)
             for i, x in enumerate(e.elts):
-                out |= self._ext(T(x), f"in:{i}")
+                if isinstance(x, ast.Starred):
+                    positional = False      # what follows a starred element has no fixed position
+                out |= self._ext(T(x), f"in:{i}" if positional else "in:elt")
             return out
         if isinstance(e, ast.Dict):
             out = {("fresh:dict",)}
